@@ -414,7 +414,7 @@ def leap_tlc_states(y0, y1):
             f.write("CONSTANTS\n Y0 = %d\n Y1 = %d\nSPECIFICATION Spec\nINVARIANT TypeOK\n" % (y0, y1))
         dump = os.path.join(tmp, "states")
         r = subprocess.run(["tlc", "-workers", "1", "-noGenerateSpecTE", "-deadlock", "-metadir",
-                            os.path.join(tmp, "meta"), "-dump", dump, "LeapSeconds"], cwd=tmp, capture_output=True,
+                            os.path.join(tmp, "meta"), "-dump", dump, "LeapSeconds"], cwd=tmp, env=dict(os.environ, JAVA_TOOL_OPTIONS="-Djava.io.tmpdir=" + tmp), capture_output=True,
                            text=True, timeout=1200)
         if "Model checking completed. No error has been found" not in r.stdout:
             raise RuntimeError("TLC failed:\n" + r.stdout[-2000:] + r.stderr[-500:])
